@@ -287,6 +287,6 @@ pub fn def() -> CheckDef {
                only on the documented u64 overflow drop; swaps and other ops never change fees owed; collect_fees pays exactly what is owed.  \
                Non-trivial = a position whose bound was crossed >= 2 times between two creditings while another position sharing that bound changed.",
         assumptions: vec!["nsvm runtime as in DESIGN.md §5", "in-range convention = the program's lower <= tick_current < upper at the start of a step (tied to traded liquidity by C05)", "per-step LP fee from the H2 trace (formula decided by C06)"],
-        subs: vec![sub("histories", 6000, 200_000, || history_strategy(false, true, 50), |c: &HistoryCase, l: &mut Local| check_history(c, l))],
+        subs: vec![sub("histories", 30_000, 600_000, || history_strategy(false, true, 50), |c: &HistoryCase, l: &mut Local| check_history(c, l))],
     }
 }
